@@ -170,7 +170,7 @@ theorem constants_match_source :
       PageTree.page tbl fuel self n = PageTree.pageLimited tbl fuel Generated.pageTreeDepth self n) ∧
     (Generated.pageTreeDepth = 16) := by
   refine ⟨?_, ?_⟩
-  · first | (intros; rfl) | fail "constants_match_source (C07): the model's PageTree.Tbl, PageTree.TreeRec, PageTree.page, PageTree.pageLimited does not match the source (Generated.pageTreeDepth, re-extracted from pdf/src)"
+  · first | ((have _h : Generated.pageTreeDepth = 16 := (by decide +kernel)); intros; rfl) | fail "constants_match_source (C07): the model's PageTree.Tbl, PageTree.TreeRec, PageTree.page, PageTree.pageLimited does not match the source (Generated.pageTreeDepth, re-extracted from pdf/src)"
   · first | decide +kernel | fail "constants_match_source (C07): the model's statement does not match the source (Generated.pageTreeDepth, re-extracted from pdf/src)"
 
 end C07
